@@ -1,6 +1,6 @@
 """Lock-step execution of a history against the real manager and the model, with the
 per-step oracles shared by the manager-sim properties."""
-from ..common import same, canon, digest
+from ..common import same, canon, digest, plain
 from ..containers import _Ctx, InjectedFault, SimStall
 from .model import Model, ModelReject, model_step, path_str, prefixes
 from .world import World, run_traced
@@ -59,11 +59,12 @@ class Exec:
         return st
 
     # ---- C01 oracle --------------------------------------------------------
-    def check_contents(self, values, where="", info=None, prop="C01"):
+    def check_contents(self, values, where="", info=None, prop="C01", loose=False):
+        """loose: a numpy scalar and the python number it stands for count as the same content"""
         got = self.world.contents()
         bad = []
         for loc in self.spec.leaves:
-            if not same(got[loc], values[loc]):
+            if not (same(plain(got[loc]), plain(values[loc])) if loose else same(got[loc], values[loc])):
                 bad.append((path_str(loc), canon(got[loc]), canon(values[loc])))
         if bad:
             gc = bool(info is not None and info.g_cyclic_trig)
